@@ -36,8 +36,8 @@ SPEC = {
 
 MUTATIONS = """
 After the fix commits (facts must be propositionally equivalent to Facts.repaired):
- R1 re-introduce `strings.HasPrefix(name, dir)` in the blacklist loop     -> see below
- R2 drop the `isDir &&` guard of the blacklist loop                        -> see below
+ R1 re-introduce `strings.HasPrefix(name, dir)` in the blacklist loop     -> exit 1: C22_facts_ok fails (blCond no longer equivalent
+    to Facts.repaired), oracle VIOLATION blacklist-string-prefix with input `blacklist out, output/BUILD` (class no longer known)
 Before the fix commits:
 Dry-runs on a scratch copy (VERIF_REPO=/var/tmp/mC22 ./check C22 quick), findings loaded from findings_inbox/C22.jsonl:
  M1 plz.go:252  drop `isDir &&` from the hidden test            -> exit 1, C22_facts_ok fails, VIOLATION class unexplained,
